@@ -196,8 +196,6 @@ class UnboundExternalMementoFunction(ExternalMementoFunctionBase):
         parameter_names: Optional[List[str]] = None,
         fn_reference: Optional[FunctionReference] = None,
     ):
-        assert fn_reference or cluster_name is not None, "Cluster name is required"
-
         if fn_reference is None:
             fn_reference = FunctionReference(
                 memento_fn=self,
